@@ -35,7 +35,7 @@ def assigned_names(nodes):
     return names
 
 
-MUTATORS = ("append", "remove", "extend", "pop", "insert", "clear", "sort", "update", "setdefault", "add")
+MUTATORS = ("append", "remove", "extend", "pop", "insert", "clear", "sort", "update", "setdefault", "add", "discard")
 
 
 def mutated_containers(nodes):
